@@ -115,7 +115,7 @@ ASSIGNS(len != 0: OBJ_UPTO((uint8_t *)r, len); G_x_r, G_x_calls, G_x_len, G_x_rp
 ENSURES(G_x_calls == OLD(G_x_calls) + 1 && G_x_len == len && G_x_rp == (size_t)r)
 ENSURES(G_mc < len IMPLIES (((const uint8_t *)r)[G_mc] == (uint8_t)(OLD(((const uint8_t *)a)[G_mc < len ? G_mc : 0]) ^ OLD(((const uint8_t *)b)[G_mc < len ? G_mc : 0])) && G_x_r == ((const uint8_t *)r)[G_mc]))
 ;
-#else
+#elif !defined(CONTRACT_MEMXOR_CUSTOM)
 void gmssl_memxor(void *r, const void *a, const void *b, size_t len)
 REQUIRES(len == 0 || (WR_OK(r, len) && RD_OK(a, len) && RD_OK(b, len)))
 ASSIGNS(len != 0: OBJ_UPTO((uint8_t *)r, len))
